@@ -153,3 +153,43 @@ Print Assumptions segments_positions.
 (* sanity: model vs python on a small case: shape (3,4) itemsize 2, slicers (slice(1,3), 2) F order *)
 Eval vm_compute in segs (run_alg 10 2 [(3, RSl 1 2 1); (4, RInt 2)]).
 Eval vm_compute in segs (run_alg 0 1 [(3, RSl 0 3 1); (4, RSl 1 2 2); (2, RSl 0 2 1)]).
+
+(* ---- the reference enumeration is the F-order list of selected element offsets ---- *)
+
+(* byte offsets (relative to the array start) of the selected elements, first axis fastest *)
+Fixpoint offs (axes : list axis) (strd : Z) : list Z :=
+  match axes with
+  | [] => [0]
+  | (n, r) :: rest =>
+      flat_map (fun outer => map (fun i => strd * i + outer) (idxs r)) (offs rest (strd * n))
+  end.
+
+Lemma map_flat_map {A B C} (g : B -> C) (f : A -> list B) l :
+  map g (flat_map f l) = flat_map (fun x => map g (f x)) l.
+Proof. induction l as [|x l IH]; simpl; [reflexivity|]. now rewrite map_app, IH. Qed.
+
+Lemma flat_map_flat_map {A B C} (g : B -> list C) (f : A -> list B) l :
+  flat_map g (flat_map f l) = flat_map (fun x => flat_map g (f x)) l.
+Proof. induction l as [|x l IH]; simpl; [reflexivity|]. now rewrite flat_map_app, IH. Qed.
+
+Lemma ref_positions_gen axes : forall (S : list seg) (strd : Z),
+  positions (fst (fold_left step_ref axes (S, strd)))
+  = flat_map (fun outer => map (fun p => p + outer) (positions S)) (offs axes strd).
+Proof.
+  induction axes as [|[n r] rest IH]; intros S strd.
+  - simpl. rewrite app_nil_r. rewrite map_ext with (g := fun p => p); [now rewrite map_id | intros; lia].
+  - cbn [fold_left]. unfold step_ref at 2. cbn [fst snd]. rewrite IH.
+    rewrite positions_flat_map. cbn [offs]. rewrite flat_map_flat_map.
+    apply flat_map_ext. intros outer. rewrite map_flat_map, flat_map_map.
+    apply flat_map_ext. intros i. rewrite map_map. apply map_ext. intros; lia.
+Qed.
+
+Theorem alg_is_F_order off w axes :
+  positions (segs (run_alg off w axes))
+  = flat_map (fun d => pos1 (off + d, w)) (offs axes (Z.of_nat w)).
+Proof.
+  rewrite segments_positions. unfold run_ref. rewrite ref_positions_gen.
+  apply flat_map_ext. intros d. unfold positions. cbn [flat_map]. rewrite app_nil_r.
+  unfold pos1; cbn [fst snd]. rewrite map_map. apply map_ext. intros; lia.
+Qed.
+Print Assumptions alg_is_F_order.
